@@ -3,12 +3,14 @@
 package interp
 
 import (
+	"sync/atomic"
 	"encoding/base64"
 	"fmt"
 	"go/constant"
 	"go/token"
 	"go/types"
 	"slices"
+	"sort"
 	"strings"
 	"sync"
 
@@ -636,6 +638,14 @@ func (th *Thread) callSSA(caller *frame, pos token.Pos, fn *ssa.Function, args [
 			return nil
 		}
 	}
+	if c, ok := in.FuncStats.Load(fn); ok {
+		atomic.AddInt64(c.(*int64), 1)
+	} else {
+		n := int64(1)
+		if prev, loaded := in.FuncStats.LoadOrStore(fn, &n); loaded {
+			atomic.AddInt64(prev.(*int64), 1)
+		}
+	}
 	th.depth++
 	if th.depth > 2000 {
 		panic(engineAbort{OutBudget, "call depth exceeded in " + fn.String()})
@@ -827,4 +837,51 @@ func (in *Interp) RunInit(pkgs []*ssa.Package) error {
 		}
 	}
 	return firstErr
+}
+
+
+// FuncCount is an interpreted function with the number of times it was entered.
+type FuncCount struct {
+	Fn    string `json:"fn"`
+	Calls int64  `json:"calls"`
+	Instr int    `json:"ssa_instructions"`
+}
+
+// EncodedFunctions lists the interpreted functions whose package path has one of the
+// prefixes, most-entered first.
+func (in *Interp) EncodedFunctions(prefixes []string, skipName func(string) bool) []FuncCount {
+	var out []FuncCount
+	in.FuncStats.Range(func(k, v any) bool {
+		fn := k.(*ssa.Function)
+		pkg := fn.Package()
+		if pkg == nil {
+			if o := fn.Origin(); o != nil {
+				pkg = o.Package()
+			}
+		}
+		if pkg == nil && fn.Parent() != nil {
+			pkg = fn.Parent().Package()
+		}
+		if pkg == nil {
+			return true
+		}
+		path := pkg.Pkg.Path()
+		ok := false
+		for _, p := range prefixes {
+			if strings.HasPrefix(path, p) {
+				ok = true
+			}
+		}
+		if !ok || skipName(fn.String()) {
+			return true
+		}
+		n := 0
+		for _, b := range fn.Blocks {
+			n += len(b.Instrs)
+		}
+		out = append(out, FuncCount{Fn: fn.String(), Calls: atomic.LoadInt64(v.(*int64)), Instr: n})
+		return true
+	})
+	sort.Slice(out, func(i, j int) bool { return out[i].Calls > out[j].Calls })
+	return out
 }
